@@ -26,7 +26,7 @@ m = {"version": 1, "setup_cmd": "./setup.sh",
      "engines": [{"name": "pyvc", "path": "/verif/pyvc", "serves_properties": [c["property_id"] for c in checks],
                   "kind_free_text": "contract-based deductive verification: AST of the real /repo functions -> symbolic execution against sidecar spec functions -> z3/cvc5 obligations; concrete replay + bounded differential layer on the real code"}],
      "checks": checks,
-     "notes": "exit codes of ./check: 0 held, 1 violation (VIOLATION line), 2 undecided, 3 checker failure; see DESIGN.md section 5",
+     "notes": "exit codes of ./check: 0 held (KNOWN-FINDING lines allowed), 1 violation (VIOLATION line), 2 undecided, 3 checker failure; known findings and repaired defects: /verif/known_findings.json (committed, never written at run time); baseline of obligation kinds: /verif/baseline_obligations.json; triage of independently reported defects: /verif/findings_triage.md; see DESIGN.md sections 5, 8, 13",
      "not_applicable": [{"property_id": p, "reason": NOT_APPLICABLE.get(p, "check not built yet (work in progress; plan in DESIGN.md section 6)")} for p in ids if p not in PROPS]}
 json.dump(m, open('MANIFEST.json', 'w'), indent=1)
 import jsonschema
